@@ -5,7 +5,7 @@ from props import _glue as G
 
 ENV_BY_TIER = {"quick": {"NUMBA_DISABLE_JIT": "1"}, "thorough": {"NUMBA_DISABLE_JIT": "1"}}
 
-RULE = ("exhaustive product: %d metadata kinds (no schema / raw bytes / permissive, typed, restrictive and "
+RULE = ("exhaustive product: %d metadata kinds (no schema / raw bytes / permissive, typed, restrictive, tsdate-default(+extra keys) and "
         "value-dependent JSON schemas / struct codecs with and without mn,vr / undecodable or non-dict content) "
         "x {nodes, mutations} x set_metadata in {None, True, False} x {variance present, None}, on small msprime "
         "inputs with fabricated means/variances (plain, integral, NaN/inf/-0, tiny); plus wrong-length arrays; "
